@@ -3,66 +3,11 @@
    exactly the table that the reference semantics gives, for all data. *)
 From Coq Require Import List String NArith ZArith Bool Lia Arith.
 From PDT Require Import Base.StableSort Model.Dtype Model.Value Model.Ops Model.Expr Model.RefSem Model.SqlCompile
-     Proofs.SortLemmas Proofs.RefLemmas Proofs.EvalLemmas.
+     Proofs.SortLemmas Proofs.RefLemmas Proofs.EvalLemmas Proofs.ListRel Proofs.EvalRel.
 From PDTGen Require Import Catalogue.
 Import ListNotations.
 Open Scope list_scope.
 
-(* ---------- lists ---------- *)
-Lemma mem_u_In x l : mem_u x l = true <-> In x l.
-Proof.
-  unfold mem_u. rewrite existsb_exists. split.
-  - intros [y [Hy E]]. apply N.eqb_eq in E. subst. exact Hy.
-  - intros H. exists x. split; [exact H|apply N.eqb_refl].
-Qed.
-
-Lemma forallb_mem_incl l l' : forallb (fun u => mem_u u l') l = true -> forall x, In x l -> In x l'.
-Proof. intros H x Hx. rewrite forallb_forall in H. apply mem_u_In. apply H. exact Hx. Qed.
-
-Lemma nodup_u_NoDup l : nodup_u l = true -> NoDup l.
-Proof.
-  induction l as [|x l IH]; intros H; [constructor|]. simpl in H. apply andb_prop in H. destruct H as [H1 H2].
-  constructor; [|apply IH; exact H2]. intros C. apply mem_u_In in C. rewrite C in H1. discriminate H1.
-Qed.
-
-Lemma Forall2_filter {A B} (R : A -> B -> Prop) (p : A -> bool) (p' : B -> bool) l l' :
-  Forall2 R l l' -> (forall a b, R a b -> p a = p' b) -> Forall2 R (filter p l) (filter p' l').
-Proof.
-  induction 1 as [|a b l l' Hab _ IH]; intros H; simpl; [constructor|].
-  rewrite <- (H a b Hab). destruct (p a); [constructor; [exact Hab|apply IH; exact H]|apply IH; exact H].
-Qed.
-
-Lemma Forall2_firstn {A B} (R : A -> B -> Prop) n : forall l l', Forall2 R l l' -> Forall2 R (firstn n l) (firstn n l').
-Proof. induction n as [|n IH]; intros l l' H; simpl; [constructor|]. destruct H; constructor; auto. Qed.
-Lemma Forall2_skipn {A B} (R : A -> B -> Prop) n : forall l l', Forall2 R l l' -> Forall2 R (skipn n l) (skipn n l').
-Proof. induction n as [|n IH]; intros l l' H; simpl; [exact H|]. destruct H; [constructor|apply IH; assumption]. Qed.
-
-Lemma Forall2_map_l {A B C} (R : C -> B -> Prop) (f : A -> C) l l' :
-  Forall2 (fun a b => R (f a) b) l l' -> Forall2 R (map f l) l'.
-Proof. induction 1; simpl; constructor; auto. Qed.
-Lemma Forall2_map_r {A B C} (R : A -> C -> Prop) (f : B -> C) l l' :
-  Forall2 (fun a b => R a (f b)) l l' -> Forall2 R l (map f l').
-Proof. induction 1; simpl; constructor; auto. Qed.
-
-Lemma Forall2_index_rows {B} (R : row -> B -> Prop) rs l' :
-  Forall2 R rs l' -> Forall2 (fun ir b => R (snd ir) b) (index_rows rs) l'.
-Proof.
-  unfold index_rows. generalize 0%nat. intros n H. revert n.
-  induction H as [|r b rs l' Hrb _ IH]; intros n; simpl; constructor; [exact Hrb|apply IH].
-Qed.
-
-Lemma filter_true {A} (l : list A) : filter (fun _ => true) l = l.
-Proof. induction l as [|x l IH]; simpl; [reflexivity|rewrite IH; reflexivity]. Qed.
-
-Lemma filter_andb {A} (p q : A -> bool) l : filter (fun x => p x && q x) l = filter q (filter p l).
-Proof.
-  induction l as [|x l IH]; simpl; [reflexivity|]. destruct (p x); simpl; [destruct (q x); rewrite IH; reflexivity|exact IH].
-Qed.
-
-Lemma filter_map_comm {A B} (f : A -> B) (p : B -> bool) l : filter p (map f l) = map f (filter (fun x => p (f x)) l).
-Proof. induction l as [|x l IH]; simpl; [reflexivity|]. destruct (p (f x)); simpl; rewrite IH; reflexivity. Qed.
-
-(* ---------- definitions, labels ---------- *)
 Lemma assoc_u_app_other {V} x (new old : list (uid * V)) :
   ~ In x (map fst new) -> assoc_u x (new ++ old) = assoc_u x old.
 Proof.
@@ -191,7 +136,7 @@ Record Aux (c : compiled) : Prop := {
   a_where_dom : forall p, In p (q_where (c_q c)) -> forall x, In x (cols p) -> In x (map fst (c_defs c));
   a_having_dom : forall p, In p (q_having (c_q c)) -> forall x, In x (cols p) -> In x (map fst (c_defs c));
   a_order_dom : forall o, In o (q_order (c_q c)) -> forall x, In x (cols (fst o)) -> In x (map fst (c_defs c));
-  a_nosumm : q_summ (c_q c) = false -> q_having (c_q c) = [] /\ q_group (c_q c) = [] /\ ds_elem (c_defs c);
+  a_nosumm : q_summ (c_q c) = false -> q_having (c_q c) = [] /\ q_group (c_q c) = [];
   a_limit : forall l, q_limit (c_q c) = Some l -> (0 <= l)%Z /\ (0 <= q_offset (c_q c))%Z
 }.
 
@@ -257,14 +202,15 @@ Proof.
   - constructor; simpl.
     + unfold final_units, units, units_of, order_units, cut, base_rows. simpl.
       rewrite !filter_true. apply Forall2_map_r.
-      induction (map (zip_row (map snd cols)) (db_get d t)) as [|r l IH]; constructor; [|exact IH].
-      intros x Hx. unfold evd, mk1. simpl. rewrite def_of_source by exact Hx. reflexivity.
+      generalize (map (zip_row (map snd cols)) (db_get d t)). intros L.
+      generalize (index_rows L) at 1. intros ctx. apply Forall2_index_rows_r.
+      induction L as [|r l IH]; constructor; [|exact IH].
+      intros i x Hx. unfold evd. simpl. rewrite def_of_source by exact Hx. reflexivity.
     + apply label_source. exact F.
     + reflexivity.
   - constructor; simpl; try (intros; contradiction); try tauto.
     + intros x Hx. rewrite map_map. simpl. exact Hx.
     + intros x Hx. rewrite map_map. simpl. exact Hx.
-    + intros _. repeat split. apply ds_elem_source.
     + intros l H. discriminate H.
 Qed.
 
@@ -373,30 +319,104 @@ Definition mutate_compiled (cc : compiled) (defs : list def) : compiled :=
      c_defs := new_defs (c_defs cc) defs ++ c_defs cc;
      c_scope := def_uids defs ++ c_scope cc |}.
 
+Lemma final_units_plain d c : no_limit (c_q c) = true -> is_nil (q_order (c_q c)) = true -> final_units d c = units d c.
+Proof.
+  unfold final_units, no_limit, is_nil. destruct (q_limit (c_q c)); [discriminate|].
+  destruct (q_order (c_q c)); [reflexivity|discriminate].
+Qed.
+
+Lemma Forall2_map_r_inv {A B C} (R : A -> C -> Prop) (f : B -> C) : forall l l',
+  Forall2 R l (map f l') -> Forall2 (fun a b => R a (f b)) l l'.
+Proof.
+  intros l l'. revert l. induction l' as [|b l' IH]; intros l H; simpl in H; inversion H; subst; constructor; auto.
+Qed.
+
+Lemma Forall2_flip' {A B} (R : A -> B -> Prop) l l' : Forall2 R l l' -> Forall2 (fun b a => R a b) l' l.
+Proof. induction 1; constructor; auto. Qed.
+
+Lemma Forall2_and {A B} (P Q : A -> B -> Prop) l l' :
+  Forall2 P l l' -> Forall2 Q l l' -> Forall2 (fun a b => P a b /\ Q a b) l l'.
+Proof.
+  intros HP. induction HP as [|a b l l' Hab _ IH]; intros HQ; inversion HQ; subst; constructor; auto.
+Qed.
+
+Lemma combine_seq_both (Q : row -> irow -> Prop) : forall (rs W : list row) n,
+  Forall2 Q rs (combine (seq n (List.length W)) W) ->
+  Forall2 (fun a b => fst a = fst b /\ Q (snd a) b) (combine (seq n (List.length rs)) rs) (combine (seq n (List.length W)) W).
+Proof.
+  induction rs as [|r rs IH]; intros W n H.
+  - inversion H. constructor.
+  - destruct W as [|w W]; [inversion H|]. simpl in *. inversion H; subst. constructor.
+    + split; [reflexivity|assumption].
+    + apply IH. assumption.
+Qed.
+
+Lemma Forall2_index_both (Q : row -> irow -> Prop) rs W :
+  Forall2 Q rs (index_rows W) ->
+  Forall2 (fun a b => fst a = fst b /\ Q (snd a) b) (index_rows rs) (index_rows W).
+Proof. unfold index_rows. apply combine_seq_both. Qed.
+
+(* the units of a query that is neither summarized, ordered nor limited: every FROM row that passes
+   WHERE, each together with all of them *)
+Lemma final_units_rows d c : Aux c ->
+  q_summ (c_q c) = false -> no_limit (c_q c) = true -> is_nil (q_order (c_q c)) = true ->
+  final_units d c =
+  let iw := index_rows (filter (fun r => all_true (c_defs c) (q_where (c_q c)) (mk1 r)) (base_rows d c)) in
+  map (fun ir => (iw, ir)) iw.
+Proof.
+  intros A Su NL NO. rewrite (final_units_plain d c NL NO). unfold units, units_of. rewrite Su.
+  destruct (a_nosumm c A Su) as [Hh _]. rewrite Hh.
+  rewrite (filter_ext (all_true (c_defs c) []) (fun _ => true)) by reflexivity. rewrite filter_true. reflexivity.
+Qed.
+
 Lemma mutate_case d s cc defs :
   Inv d s cc -> Aux cc ->
-  forallb (fun dd => elem (snd dd)) defs = true -> fresh cc defs = true ->
+  fresh cc defs = true ->
   forallb (fun dd => scoped (c_scope cc) (snd dd)) defs = true ->
+  (forallb (fun dd => elem (snd dd)) defs = true
+   \/ (q_summ (c_q cc) = false /\ no_limit (c_q cc) = true /\ is_nil (q_order (c_q cc)) = true)) ->
   Inv d (do_mutate s defs) (mutate_compiled cc defs) /\ Aux (mutate_compiled cc defs).
 Proof.
-  intros [R S G] A El Fr Sc. destruct (fresh_spec cc defs Fr) as [ND Hfresh].
+  intros [R S G] A Fr Sc El. destruct (fresh_spec cc defs Fr) as [ND Hfresh].
   assert (Hother : forall x, In x (map fst (c_defs cc)) ->
                              def_of (new_defs (c_defs cc) defs ++ c_defs cc) x = def_of (c_defs cc) x).
   { intros x Hx. apply def_of_app_other. rewrite new_defs_dom. apply Hfresh. exact Hx. }
   assert (FU : final_units d (mutate_compiled cc defs) = final_units d cc).
   { apply final_units_ext; try reflexivity; [exact Hother|exact A]. }
+  rewrite forallb_forall in Sc.
+  (* the value of every new column: the inlined expression at the unit = the expression at the reference row *)
+  assert (NewVal : Forall2 (fun (ir : irow) (u : unit_) =>
+                     forall dd, In dd defs -> eval (index_rows (rows s)) ir (snd dd) = ev (c_defs cc) u (snd dd))
+                   (index_rows (rows s)) (final_units d cc)).
+  { destruct El as [El|[Su [NL NO]]].
+    - rewrite forallb_forall in El. apply Forall2_index_rows in R. eapply Forall2_impl'; [|exact R].
+      intros [i r] u Hru dd Hdd. simpl in Hru.
+      apply (subst_elem (snd dd) (El dd Hdd) (c_defs cc) u (index_rows (rows s)) i r).
+      eapply agrees_on_incl; [|exact Hru]. apply scoped_incl. apply Sc. exact Hdd.
+    - rewrite (final_units_rows d cc A Su NL NO) in R |- *. cbv zeta in R |- *.
+      set (iw := index_rows (filter (fun r => all_true (c_defs cc) (q_where (c_q cc)) (mk1 r)) (base_rows d cc))) in *.
+      apply Forall2_map_r_inv in R.
+      apply (Forall2_index_both (fun r b => agrees_on (c_scope cc) (c_defs cc) (iw, b) r)) in R. fold iw in R.
+      apply Forall2_map_r.
+      assert (F : forall X, (forall x, In x X -> In x (c_scope cc)) ->
+                            Forall2 (srel (c_defs cc) iw X) iw (index_rows (rows s))).
+      { intros X HX. apply Forall2_flip'. eapply Forall2_impl'; [|exact R]. intros a b [E Hab]. split; [symmetry; exact E|].
+        intros x Hx. symmetry. apply (Hab x (HX x Hx)). }
+      eapply Forall2_impl'; [|exact R]. intros a b [E Hab] dd Hdd. unfold ev. cbn [fst snd]. symmetry.
+      apply subst_rel.
+      + apply F. apply scoped_incl. apply Sc. exact Hdd.
+      + split; [symmetry; exact E|]. intros x Hx. symmetry. apply Hab. apply (scoped_incl _ _ (Sc dd Hdd)). exact Hx. }
   split.
   - constructor.
     + rewrite FU, do_mutate_rows. apply Forall2_map_l. apply Forall2_index_rows in R.
-      eapply Forall2_impl'; [|exact R]. intros [i r] u Hru. simpl in Hru. simpl.
+      pose proof (Forall2_and _ _ _ _ R NewVal) as RN.
+      eapply Forall2_impl'; [|exact RN]. intros [i r] u [Hru Hnew]. simpl in Hru. simpl.
       intros x Hx. apply in_app_or in Hx.
-      destruct (in_dec N.eq_dec x (def_uids defs)) as [Hnew|Hold].
-      * destruct (in_def_uids defs x Hnew) as [dd [Hdd Ex]]. subst x.
+      destruct (in_dec N.eq_dec x (def_uids defs)) as [Hin|Hold].
+      * destruct (in_def_uids defs x Hin) as [dd [Hdd Ex]]. subst x.
         rewrite (apply_defs_new (index_rows (rows s)) (i, r) defs r dd ND Hdd).
         unfold evd, def_of. rewrite (assoc_u_app_found _ _ _ _ (assoc_new_defs (c_defs cc) defs ND dd Hdd)).
-        rewrite forallb_forall in El, Sc.
-        apply (subst_elem (snd dd) (El dd Hdd) (c_defs cc) u (index_rows (rows s)) i r).
-        eapply agrees_on_incl; [|exact Hru]. apply scoped_incl. apply Sc. exact Hdd.
+        apply (Hnew dd Hdd).
       * destruct Hx as [Hx|Hx]; [contradiction|].
         rewrite apply_defs_other by exact Hold. rewrite (Hru x Hx). unfold evd.
         rewrite Hother by (apply (a_scope_dom cc A); exact Hx). reflexivity.
@@ -419,12 +439,7 @@ Proof.
     + intros p Hp x Hx. rewrite map_app. apply in_or_app. right. apply (A6 p Hp x Hx).
     + intros p Hp x Hx. rewrite map_app. apply in_or_app. right. apply (A7 p Hp x Hx).
     + intros o Ho x Hx. rewrite map_app. apply in_or_app. right. apply (A8 o Ho x Hx).
-    + intros Hs. destruct (A9 Hs) as [B1 [B2 B3]]. repeat split; [exact B1|exact B2|].
-      intros x. destruct (in_dec N.eq_dec x (def_uids defs)) as [Hnew|Hold].
-      * destruct (in_def_uids defs x Hnew) as [dd [Hdd Ex]]. subst x.
-        unfold def_of. rewrite (assoc_u_app_found _ _ _ _ (assoc_new_defs (c_defs cc) defs ND dd Hdd)).
-        rewrite forallb_forall in El. apply elem_subst; [apply El; exact Hdd|exact B3].
-      * rewrite def_of_app_other by (rewrite new_defs_dom; exact Hold). apply B3.
+    + exact A9.
     + exact A10.
 Qed.
 
@@ -441,39 +456,87 @@ Definition filter_query (q : query) (ps : list expr) : query :=
           q_having := q_having q; q_order := q_order q; q_limit := q_limit q;
           q_offset := q_offset q; q_summ := q_summ q |}.
 
-Lemma final_units_plain d c : no_limit (c_q c) = true -> is_nil (q_order (c_q c)) = true -> final_units d c = units d c.
-Proof.
-  unfold final_units, no_limit, is_nil. destruct (q_limit (c_q c)); [discriminate|].
-  destruct (q_order (c_q c)); [reflexivity|discriminate].
-Qed.
 
-Lemma units_filter d cc ps : Aux cc ->
+Lemma units_filter_summ d cc ps : q_summ (c_q cc) = true ->
   units d (with_q cc (filter_query (c_q cc) ps)) = filter (all_true (c_defs cc) ps) (units d cc).
 Proof.
-  intros A. unfold units, filter_query, base_rows. destruct (q_summ (c_q cc)) eqn:Su.
-  - rewrite orb_true_r. simpl. unfold units_of.
-    rewrite (filter_ext _ _ (all_true_app (c_defs cc) (q_having (c_q cc)) ps)).
-    rewrite filter_andb. reflexivity.
-  - destruct (a_nosumm cc A Su) as [Hh [Hg _]]. rewrite Hg. simpl. rewrite Hh. unfold units_of.
-    rewrite !(filter_ext (all_true (c_defs cc) []) (fun _ => true)) by reflexivity. rewrite !filter_true.
-    rewrite (filter_ext _ _ (fun r => all_true_app (c_defs cc) (q_where (c_q cc)) ps (mk1 r))).
-    rewrite (filter_andb (fun r => all_true (c_defs cc) (q_where (c_q cc)) (mk1 r)) (fun r => all_true (c_defs cc) ps (mk1 r))).
-    rewrite (filter_map_comm mk1 (all_true (c_defs cc) ps)). reflexivity.
+  intros Su. unfold units, filter_query, base_rows. rewrite Su.
+  rewrite orb_true_r. simpl. unfold units_of.
+  rewrite (filter_ext _ _ (all_true_app (c_defs cc) (q_having (c_q cc)) ps)).
+  rewrite filter_andb. reflexivity.
+Qed.
+
+(* while every definition is element-wise, a unit agrees with a reference row iff its FROM row alone does *)
+Lemma ds_elem_b_spec ds : ds_elem_b ds = true -> ds_elem ds.
+Proof.
+  intros H x. unfold def_of. unfold ds_elem_b in H. rewrite forallb_forall in H.
+  destruct (assoc_u x ds) as [e|] eqn:E; [|reflexivity].
+  assert (Hin : In (x, e) ds).
+  { clear H. induction ds as [|[k v] ds IH]; simpl in E; [discriminate|].
+    destruct (N.eqb_spec x k) as [->|N]; [inversion E; subst; left; reflexivity|right; apply IH; exact E]. }
+  apply (H (x, e) Hin).
+Qed.
+
+Lemma agrees_plain sc ds ctx i b r : ds_elem ds -> agrees_on sc ds (ctx, (i, b)) r -> agrees_on sc ds (mk1 b) r.
+Proof.
+  intros D H x Hx. rewrite (H x Hx). unfold mk1, evd. cbn [fst snd]. apply elem_local; [apply D|]. intros u. reflexivity.
+Qed.
+Lemma agrees_unplain sc ds ctx i b r : ds_elem ds -> agrees_on sc ds (mk1 b) r -> agrees_on sc ds (ctx, (i, b)) r.
+Proof.
+  intros D H x Hx. rewrite (H x Hx). unfold mk1, evd. cbn [fst snd]. apply elem_local; [apply D|]. intros u. reflexivity.
+Qed.
+
+Lemma units_plain_out' sc ds ctx (R W : list row) : ds_elem ds ->
+  Forall2 (fun r ir => agrees_on sc ds (ctx, ir) r) R (index_rows W) ->
+  Forall2 (fun r b => agrees_on sc ds (mk1 b) r) R W.
+Proof.
+  intros D. unfold index_rows. generalize 0%nat. revert R.
+  induction W as [|w W IH]; intros R n H; simpl in H; inversion H; subst; constructor.
+  - eapply agrees_plain; [exact D|eassumption].
+  - eapply IH. eassumption.
+Qed.
+
+Lemma units_plain_out sc ds (R W : list row) : ds_elem ds ->
+  Forall2 (fun r u => agrees_on sc ds u r) R (map (fun ir => (index_rows W, ir)) (index_rows W)) ->
+  Forall2 (fun r b => agrees_on sc ds (mk1 b) r) R W.
+Proof.
+  intros D H. apply Forall2_map_r_inv in H. apply (units_plain_out' sc ds (index_rows W) R W D H).
+Qed.
+
+Lemma units_plain_in sc ds (R W : list row) : ds_elem ds ->
+  Forall2 (fun r b => agrees_on sc ds (mk1 b) r) R W ->
+  Forall2 (fun r u => agrees_on sc ds u r) R (map (fun ir => (index_rows W, ir)) (index_rows W)).
+Proof.
+  intros D H. apply Forall2_map_r. generalize (index_rows W) at 1. intros ctx. apply Forall2_index_rows_r.
+  eapply Forall2_impl'; [|exact H]. intros r b Hrb i. apply agrees_unplain; assumption.
 Qed.
 
 Lemma filter_case d s cc ps :
   Inv d s cc -> Aux cc -> forallb elem ps = true ->
   no_limit (c_q cc) = true -> is_nil (q_order (c_q cc)) = true -> forallb (scoped (c_scope cc)) ps = true ->
+  q_summ (c_q cc) || ds_elem_b (c_defs cc) = true ->
   Inv d (do_filter s ps) (with_q cc (filter_query (c_q cc) ps)) /\ Aux (with_q cc (filter_query (c_q cc) ps)).
 Proof.
-  intros [R S G] A El NL NO Sc. rewrite forallb_forall in El, Sc.
+  intros [R S G] A El NL NO Sc SD. rewrite forallb_forall in El, Sc.
   assert (NL' : no_limit (c_q (with_q cc (filter_query (c_q cc) ps))) = true).
-  { unfold filter_query. simpl. destruct (_ || _); exact NL. }
+  { unfold filter_query. simpl. destruct (negb _ || _); exact NL. }
   assert (NO' : is_nil (q_order (c_q (with_q cc (filter_query (c_q cc) ps)))) = true).
-  { unfold filter_query. simpl. destruct (_ || _); exact NO. }
-  split.
-  - constructor.
-    + rewrite (final_units_plain d _ NL' NO'), (units_filter d cc ps A), filter_keeps_exactly_true.
+  { unfold filter_query. simpl. destruct (negb _ || _); exact NO. }
+  assert (Hdom : forall p, In p ps -> forall x, In x (cols p) -> In x (map fst (c_defs cc))).
+  { intros p Hp x Hx. apply (a_scope_dom cc A). apply (scoped_incl _ _ (Sc p Hp)). exact Hx. }
+  assert (AUX : Aux (with_q cc (filter_query (c_q cc) ps))).
+  { destruct A as [A1 A2 A3 A4 A5 A6 A7 A8 A9 A10]. unfold filter_query.
+    destruct (q_summ (c_q cc)) eqn:Su.
+    + rewrite orb_true_r. constructor; simpl; auto.
+      * intros p Hp. apply in_app_or in Hp. destruct Hp as [Hp|Hp]; [apply A7; exact Hp|apply Hdom; exact Hp].
+      * intros C. discriminate C.
+    + destruct (A9 eq_refl) as [Hh Hg]. rewrite Hg. simpl. constructor; simpl; auto; try (intros; contradiction).
+      intros p Hp. apply in_app_or in Hp. destruct Hp as [Hp|Hp]; [apply A6; exact Hp|apply Hdom; exact Hp]. }
+  split; [|exact AUX].
+  destruct (q_summ (c_q cc)) eqn:Su.
+  - (* HAVING *)
+    constructor.
+    + rewrite (final_units_plain d _ NL' NO'), (units_filter_summ d cc ps Su), filter_keeps_exactly_true.
       rewrite (final_units_plain d cc NL NO) in R.
       apply Forall2_map_l. cbn [c_scope c_defs with_q].
       apply (Forall2_filter (fun (a : irow) (b : unit_) => agrees_on (c_scope cc) (c_defs cc) b (snd a))).
@@ -481,17 +544,33 @@ Proof.
       * intros [i r] u Hru. simpl in Hru. unfold passes, all_true. apply forallb_ext_in'. intros p Hp.
         f_equal. apply subst_elem; [apply El; exact Hp|].
         eapply agrees_on_incl; [|exact Hru]. apply scoped_incl. apply Sc. exact Hp.
-    + unfold filter_query. simpl. destruct (_ || _); exact S.
-    + unfold filter_query. simpl. destruct (_ || _); exact G.
-  - assert (Hdom : forall p, In p ps -> forall x, In x (cols p) -> In x (map fst (c_defs cc))).
-    { intros p Hp x Hx. apply (a_scope_dom cc A). apply (scoped_incl _ _ (Sc p Hp)). exact Hx. }
-    destruct A as [A1 A2 A3 A4 A5 A6 A7 A8 A9 A10]. unfold filter_query.
-    destruct (q_summ (c_q cc)) eqn:Su.
-    + rewrite orb_true_r. constructor; simpl; auto.
-      * intros p Hp. apply in_app_or in Hp. destruct Hp as [Hp|Hp]; [apply A7; exact Hp|apply Hdom; exact Hp].
-      * intros C. discriminate C.
-    + destruct (A9 eq_refl) as [Hh [Hg D]]. rewrite Hg. simpl. constructor; simpl; auto; try (intros; contradiction).
-      intros p Hp. apply in_app_or in Hp. destruct Hp as [Hp|Hp]; [apply A6; exact Hp|apply Hdom; exact Hp].
+    + unfold filter_query. simpl. destruct (negb _ || _); exact S.
+    + unfold filter_query. simpl. destruct (negb _ || _); exact G.
+  - (* WHERE: no window column is in scope *)
+    simpl in SD. apply ds_elem_b_spec in SD.
+    assert (Su' : q_summ (c_q (with_q cc (filter_query (c_q cc) ps))) = false).
+    { unfold filter_query. simpl. destruct (negb _ || _); exact Su. }
+    destruct (a_nosumm cc A Su) as [Hh Hg].
+    constructor.
+    + rewrite (final_units_rows d _ AUX Su' NL' NO'). rewrite (final_units_rows d cc A Su NL NO) in R. cbv zeta in R |- *.
+      apply (units_plain_out (c_scope cc) (c_defs cc) _ _ SD) in R.
+      rewrite filter_keeps_exactly_true. cbn [c_scope c_defs with_q base_rows c_from c_cols].
+      assert (EW : filter (fun r => all_true (c_defs cc) (q_where (c_q (with_q cc (filter_query (c_q cc) ps)))) (mk1 r)) (base_rows d cc)
+                   = filter (fun r => all_true (c_defs cc) ps (mk1 r))
+                            (filter (fun r => all_true (c_defs cc) (q_where (c_q cc)) (mk1 r)) (base_rows d cc))).
+      { unfold filter_query. rewrite Su, Hg. simpl.
+        rewrite (filter_ext _ _ (fun r => all_true_app (c_defs cc) (q_where (c_q cc)) ps (mk1 r))).
+        apply filter_andb. }
+      change (base_rows d (with_q cc (filter_query (c_q cc) ps))) with (base_rows d cc). rewrite EW.
+      apply (units_plain_in (c_scope cc) (c_defs cc) _ _ SD).
+      apply Forall2_map_l.
+      apply (Forall2_filter (fun (a : irow) (b : row) => agrees_on (c_scope cc) (c_defs cc) (mk1 b) (snd a))).
+      * apply (Forall2_index_rows (fun r b => agrees_on (c_scope cc) (c_defs cc) (mk1 b) r)). exact R.
+      * intros [i r] b Hru. simpl in Hru. unfold passes, all_true. apply forallb_ext_in'. intros p Hp.
+        f_equal. apply subst_elem; [apply El; exact Hp|].
+        eapply agrees_on_incl; [|exact Hru]. apply scoped_incl. apply Sc. exact Hp.
+    + unfold filter_query. simpl. destruct (negb _ || _); exact S.
+    + unfold filter_query. simpl. destruct (negb _ || _); exact G.
 Qed.
 
 (* ---------- slice_head ---------- *)
@@ -532,27 +611,6 @@ Proof.
 Qed.
 
 (* ---------- arrange ---------- *)
-Section KeyedSort.
-Context {K A B : Type}.
-Variable f : K -> K -> bool.
-Variable R : A -> B -> Prop.
-Let leA (x y : K * A) := f (fst x) (fst y).
-Let leB (x y : K * B) := f (fst x) (fst y).
-Let R2 (x : K * A) (y : K * B) := fst x = fst y /\ R (snd x) (snd y).
-
-Lemma Forall2_ins a b L L' : R2 a b -> Forall2 R2 L L' -> Forall2 R2 (ins leA a L) (ins leB b L').
-Proof.
-  intros Hab H. induction H as [|y y' L L' Hy HL IH]; simpl; [constructor; [exact Hab|constructor]|].
-  assert (E : leA a y = leB b y').
-  { unfold leA, leB. destruct Hab as [E1 _]. destruct Hy as [E2 _]. rewrite E1, E2. reflexivity. }
-  rewrite <- E. destruct (leA a y).
-  - constructor; [exact Hab|]. constructor; assumption.
-  - constructor; [exact Hy|exact IH].
-Qed.
-
-Lemma Forall2_ssort L L' : Forall2 R2 L L' -> Forall2 R2 (ssort leA L) (ssort leB L').
-Proof. induction 1 as [|a b L L' Hab _ IH]; simpl; [constructor|]. apply Forall2_ins; assumption. Qed.
-End KeyedSort.
 
 Definition arrange_query (q : query) (os : list (expr * omark)) : query :=
   {| q_select := q_select q; q_part := q_part q; q_group := q_group q; q_where := q_where q;
@@ -599,11 +657,6 @@ Qed.
 (* ---------- summarize ---------- *)
 From PDT Require Import Proofs.GroupLemmas.
 
-Lemma Forall2_map_r_inv {A B C} (R : A -> C -> Prop) (f : B -> C) : forall l l',
-  Forall2 R l (map f l') -> Forall2 (fun a b => R a (f b)) l l'.
-Proof.
-  intros l l'. revert l. induction l' as [|b l' IH]; intros l H; simpl in H; inversion H; subst; constructor; auto.
-Qed.
 
 Lemma Forall2_index_rows2 (R : row -> row -> Prop) l l' :
   Forall2 R l l' -> Forall2 (fun a b => R (snd a) (snd b)) (index_rows l) (index_rows l').
@@ -658,15 +711,16 @@ Lemma summarize_case d s cc defs :
   Inv d s cc -> Aux cc ->
   forallb (fun dd => agg1 (snd dd)) defs = true ->
   no_limit (c_q cc) = true -> is_nil (q_order (c_q cc)) = true -> q_summ (c_q cc) = false ->
+  ds_elem_b (c_defs cc) = true ->
   fresh cc defs = true -> forallb (fun dd => scoped (c_scope cc) (snd dd)) defs = true ->
   forallb (fun dd => forallb (fun x => mem_u x (q_part (c_q cc))) (gcols (snd dd))) defs = true ->
   forallb (fun u => mem_u u (q_select (c_q cc))) (q_part (c_q cc)) = true ->
   forallb (fun u => negb (mem_s (label (c_labels cc) u) (def_names defs))) (q_part (c_q cc)) = true ->
   Inv d (do_summarize s defs) (summ_compiled cc defs) /\ Aux (summ_compiled cc defs).
 Proof.
-  intros [R S G] A Ag NL NO Su Fr Sc Gc Ps Pn.
+  intros [R S G] A Ag NL NO Su DE Fr Sc Gc Ps Pn.
   destruct (fresh_spec cc defs Fr) as [ND Hfresh].
-  destruct (a_nosumm cc A Su) as [Hh [Hg D]].
+  destruct (a_nosumm cc A Su) as [Hh Hg]. pose proof (ds_elem_b_spec _ DE) as D.
   assert (Efilt : filter (fun u => negb (mem_s (label (c_labels cc) u) (def_names defs))) (q_part (c_q cc)) = q_part (c_q cc)).
   { apply filter_all. rewrite forallb_forall in Pn. exact Pn. }
   unfold summ_compiled. rewrite Efilt. fold (summ_compiled0 cc defs).
@@ -680,9 +734,8 @@ Proof.
   (* the FROM rows that pass WHERE, related row by row to the reference rows *)
   set (W := filter (fun r => all_true ds (q_where (c_q cc)) (mk1 r)) (base_rows d cc)).
   assert (RW : Forall2 (fun r b => agrees_on (c_scope cc) ds (mk1 b) r) (rows s) W).
-  { rewrite (final_units_plain d cc NL NO) in R. unfold units, units_of in R. rewrite Su, Hh in R.
-    rewrite (filter_ext (all_true ds []) (fun _ => true)) in R by reflexivity. rewrite filter_true in R.
-    apply Forall2_map_r_inv in R. exact R. }
+  { rewrite (final_units_rows d cc A Su NL NO) in R. cbv zeta in R.
+    apply (units_plain_out (c_scope cc) ds _ _ D) in R. exact R. }
   (* the units of the summarized query *)
   assert (FU : final_units d (summ_compiled0 cc defs)
                = map mkg (match part with
@@ -785,12 +838,17 @@ Proof.
   - simpl in C, F. destruct (compile a) as [cc|] eqn:E; [|discriminate C]. inversion C; subst; clear C.
     destruct (IH cc eq_refl F) as [I A]. cbn [sem_ref]. apply rename_case; assumption.
   - simpl in C, F. destruct (compile a) as [cc|] eqn:E; [|discriminate C]. inversion C; subst; clear C.
-    apply andb_prop in F. destruct F as [F F3]. apply andb_prop in F. destruct F as [Fa Fe].
-    apply andb_prop in F3. destruct F3 as [Ffr Fsc]. destruct (IH cc eq_refl Fa) as [I A].
-    cbn [sem_ref]. apply (mutate_case d (sem_ref d a) cc defs); assumption.
+    apply andb_prop in F. destruct F as [Fa F3].
+    apply andb_prop in F3. destruct F3 as [F3 Fel]. apply andb_prop in F3. destruct F3 as [Ffr Fsc].
+    destruct (IH cc eq_refl Fa) as [I A].
+    cbn [sem_ref]. apply (mutate_case d (sem_ref d a) cc defs); try assumption.
+    apply orb_prop in Fel. destruct Fel as [Fel|Fel]; [left; exact Fel|right].
+    apply andb_prop in Fel. destruct Fel as [Fel _]. apply andb_prop in Fel. destruct Fel as [Fel Fno].
+    apply andb_prop in Fel. destruct Fel as [Fsu Fnl]. apply negb_true_iff in Fsu. auto.
   - simpl in C, F. destruct (compile a) as [cc|] eqn:E; [|discriminate C]. inversion C; subst; clear C.
     apply andb_prop in F. destruct F as [F F3]. apply andb_prop in F. destruct F as [Fa Fe].
-    apply andb_prop in F3. destruct F3 as [F3 Fsc]. apply andb_prop in F3. destruct F3 as [Fnl Fno].
+    apply andb_prop in F3. destruct F3 as [F3 Fsd]. apply andb_prop in F3. destruct F3 as [F3 Fsc].
+    apply andb_prop in F3. destruct F3 as [Fnl Fno].
     destruct (IH cc eq_refl Fa) as [I A]. cbn [sem_ref].
     apply (filter_case d (sem_ref d a) cc ps); assumption.
   - simpl in C, F. destruct (compile a) as [cc|] eqn:E; [|discriminate C]. inversion C; subst; clear C.
@@ -816,7 +874,7 @@ Proof.
   - simpl in C, F. destruct (compile a) as [cc|] eqn:E; [|discriminate C]. inversion C; subst; clear C.
     apply andb_prop in F. destruct F as [F F3]. apply andb_prop in F. destruct F as [Fa Fe].
     repeat (apply andb_prop in F3; let H := fresh "G" in destruct F3 as [F3 H]).
-    destruct (IH cc eq_refl Fa) as [I A]. cbn [sem_ref]. apply negb_true_iff in G4.
+    destruct (IH cc eq_refl Fa) as [I A]. cbn [sem_ref]. apply negb_true_iff in G5.
     apply (summarize_case d (sem_ref d a) cc defs); assumption.
   - destruct m as [m|]; [simpl in C; discriminate C|]. simpl in C, F. cbn [sem_ref do_alias]. apply IH; assumption.
   - simpl in C. discriminate C.
